@@ -160,6 +160,12 @@ func oneRun(r *rep.Report, spec runSpec) {
 		l.add(e)
 	}
 	ms := func(n int) time.Duration { return time.Duration(n) * time.Millisecond }
+	var burstFires [2]int64
+	canaryOK := func() bool {
+		t0 := time.Now()
+		time.Sleep(20 * time.Millisecond)
+		return time.Since(t0) < 400*time.Millisecond
+	}
 	quiet := func(d time.Duration) {
 		time.Sleep(d)
 		if msg, _ := timelineOK(c); msg != "" {
@@ -224,6 +230,67 @@ func oneRun(r *rep.Report, spec runSpec) {
 		}
 		addRecD("j0", ms(2000+rng.Intn(300)))
 		quiet(ms(6200))
+	case "recurring-callback-error":
+		// a callback that reports an error once is no reason to drop a recurring job
+		{
+			gens["j0"]++
+			g := gens["j0"]
+			e := ev{T: "add", Id: "j0", Gen: g, Rec: true, Call: l.now()}
+			var nth int64
+			err := c.Add(ctx, "j0", "* * * * * * *", func(t time.Time) error {
+				f := ev{T: "fire", Id: "j0", Gen: g, Rec: true, Call: l.now()}
+				k := atomic.AddInt64(&nth, 1)
+				f.Ret = l.now()
+				l.add(f)
+				if k == 2 {
+					return fmt.Errorf("this run failed")
+				}
+				return nil
+			})
+			e.Ret, e.Err = l.now(), drv.ErrStr(err)
+			l.add(e)
+		}
+		quiet(ms(6200))
+	case "concurrent-adds-one-id":
+		// several clients add a job under one id at the same moment, twice; then one removes it
+		for burst := 0; burst < 2; burst++ {
+			b := burst
+			var wg sync.WaitGroup
+			gate := make(chan bool)
+			for k := 0; k < 8; k++ {
+				wg.Add(1)
+				go func(k int) {
+					defer wg.Done()
+					<-gate
+					c.Add(ctx, "cx", "+300ms", func(t time.Time) error {
+						atomic.AddInt64(&burstFires[b], 1)
+						return nil
+					})
+				}(k)
+			}
+			close(gate)
+			wg.Wait()
+			if msg, n := timelineOK(c); msg != "" || n != 1 {
+				r.Violate("", fmt.Sprintf("after 8 concurrent Adds of one id there are %d pending entries (%s)", n, msg), rep.J{"run": spec, "burst": burst})
+			}
+			if burst == 0 {
+				quiet(ms(1900))
+			}
+		}
+		// the second burst's survivor is removed before it is due
+		c.Rem(ctx, "cx")
+		quiet(ms(1900))
+		r.Count("concurrent_add_bursts", 2)
+		if n := atomic.LoadInt64(&burstFires[0]); n != 1 {
+			if canaryOK() {
+				r.Violate("", fmt.Sprintf("8 concurrent Adds of a one-shot job under one id led to %d fires (exactly one job is pending afterwards)", n), rep.J{"run": spec})
+			} else {
+				r.Inconclusive("canary late")
+			}
+		}
+		if n := atomic.LoadInt64(&burstFires[1]); n != 0 {
+			r.Violate("", fmt.Sprintf("a job added by concurrent Adds and removed before it was due fired %d time(s)", n), rep.J{"run": spec})
+		}
 	case "recurring":
 		addRec("j0")
 		add("j1", ms(300))
@@ -429,11 +496,9 @@ func main() {
 	e := rep.GetEnv()
 	r := rep.New(e)
 	r.Note("hooks_compiled_in", hook.Enabled())
-	patterns := []string{"rem-head-then-quiet", "replace-head-later", "add-earlier-than-head", "add-during-suspend", "pause", "rem-recurring-during-run", "replace-recurring-during-run", "replace-recurring-both-running", "rem-readd-recurring-both-running", "recurring", "random", "random", "random"}
+	patterns := []string{"rem-head-then-quiet", "replace-head-later", "add-earlier-than-head", "add-during-suspend", "pause", "rem-recurring-during-run", "replace-recurring-during-run", "replace-recurring-both-running", "rem-readd-recurring-both-running", "recurring-callback-error", "concurrent-adds-one-id", "recurring", "random", "random", "random"}
 	rounds := e.Pick(1, 4)
 	var wg sync.WaitGroup
-	var mu sync.Mutex
-	_ = mu
 	for round := 0; round < rounds; round++ {
 		for i, p := range patterns {
 			wg.Add(1)
